@@ -413,6 +413,48 @@ def r14f(ctx, rep, cr):
     rep.floor('R14f', 'access-edge deletions in revoke paths', n, 3)
 
 
+def r14g(ctx, rep, cr):
+    rep.rule('R14g', 'a listing names only what the requester may read: in every Vault function with a requester parameter that builds a '
+                     'list of secret names (list, list_paginated, list_with_metadata, find_similar, …), each push onto a Vec that the '
+                     'function returns, of a name it found in the store (scan / decrypt_key_name), is unreachable from the entry once the passing edges of the authorisation guards (has_access, '
+                     'check_access*, get_permission, requester == ROOT) are cut. A second, cheaper reachability computation in place of '
+                     'the checker is a second definition of access — the two disagree at the traversal horizon')
+    n = 0
+    for f in sorted(cr.fns.values(), key=lambda x: x.name):
+        if not f.name.startswith(V) or '{closure' in f.name:
+            continue
+        names = _named(f)
+        if 'requester' not in names:
+            continue
+        if not re.search(r'Vec<(std::string::String|alloc::string::String|\(std::string::String)', f.locals[0]):
+            continue
+        defs = A.Defs(f)
+        ret = A.backward_slice(f, [0], defs).locals
+        pushes = [c for c in A.calls(f) if re.search(r'Vec::<T, A>::push$', c.generic) and c.args and c.args[0][0] != 'k' and
+                  (defs.ref_targets(c.args[0][1][0]) | {c.args[0][1][0]}) & ret]
+        if not pushes:
+            continue
+        uses = A.Uses(f)
+        edges, kinds = _guard_edges(f, defs, uses, names)
+        R = A.reachable(f, [0], cut_edges=edges)
+        rep.analysed(f)
+        for k, c in enumerate(pushes):
+            # only names the function discovered in the store (scan / decrypt_key_name), not names the caller supplied
+            # and not names that already came out of Vault::list
+            vs = A.backward_slice(f, [a for a in c.args[1:] if a[0] != 'k'], defs)
+            if not any(re.search(r'TensorStore::scan\w*$|Vault::decrypt_key_name$', x) for x in vs.calls) or any(LISTFN.search(x) for x in vs.calls):
+                continue
+            n += 1
+            if c.bb in R:
+                rep.violation('R14g', f, 'unguarded-name', f.loc(c.line),
+                              'a name is added to the returned list on a path that did not pass has_access / check_access / get_permission '
+                              'for the requester (guards seen: %s): whatever decides membership here is not the access checker, and a '
+                              'secret that get() denies can be named by list()' % (sorted(set(kinds)) or 'none'))
+            else:
+                rep.holds('R14g', f, 'push#%d' % k, 'behind %s' % sorted(set(kinds)))
+    rep.floor('R14g', 'name pushes in listing functions', n, 1)
+
+
 def run(ctx, rep):
     cr = ctx.crate('tensor_vault')
     cg = ctx.callgraph(['tensor_vault'])
@@ -422,3 +464,4 @@ def run(ctx, rep):
     r14c(ctx, rep, cr)
     r14e(ctx, rep, cr)
     r14f(ctx, rep, cr)
+    r14g(ctx, rep, cr)
